@@ -1,7 +1,7 @@
 from typing import List
 from copy import deepcopy
 import numpy as np
-from optiland.coatings import BaseCoatingPolarized
+from optiland.coatings import BaseCoatingPolarized, FresnelCoating
 from optiland.surfaces.standard_surface import Surface
 from optiland.surfaces.surface_factory import SurfaceFactory
 from optiland.geometries import EvenAsphere
@@ -210,6 +210,16 @@ class SurfaceGroup:
         if index == 0:
             raise ValueError('Cannot remove object surface.')
         del self.surfaces[index]
+
+        # the surface that followed now sits behind surface index-1 and
+        # refracts out of that surface's medium
+        if index < len(self.surfaces):
+            following = self.surfaces[index]
+            following.material_pre = self.surfaces[index-1].material_post
+            if following.is_reflective:
+                following.material_post = following.material_pre
+            if isinstance(following.coating, FresnelCoating):
+                following.set_fresnel_coating()
 
     def reset(self):
         """
